@@ -174,7 +174,7 @@ mut('m12_storysend_body_reversed', 'C04',
             insert_node(parent=ss_tag, node=child, index=story_body_index)""", None))
 mut('m12b_eastoryreplace_drops_attributes', 'C04',
     (MT, """        remove_node(parent=ro.base_tag, node=story)
-        for i, new_story in enumerate(self.stories, start=story_index):
+        for i, new_story in enumerate(new_stories, start=story_index):
             insert_node(parent=ro.base_tag, node=copy.deepcopy(new_story.xml), index=i)
         return ro
 
@@ -189,7 +189,7 @@ mut('m12b_eastoryreplace_drops_attributes', 'C04',
 
 class EAItemReplace""",
      """        remove_node(parent=ro.base_tag, node=story)
-        for i, new_story in enumerate(self.stories, start=story_index):
+        for i, new_story in enumerate(new_stories, start=story_index):
             node = Element('story')
             node.extend(copy.deepcopy(new_story.xml))
             insert_node(parent=ro.base_tag, node=node, index=i)
@@ -347,7 +347,7 @@ mut('m23_guard_skipped_for_readytoair', 'C07',
      """        if self.xml.find('mosromgrmeta') is None or isinstance(other, ReadyToAir):
             return other.merge(self)""", None))
 mut('m23b_rodelete_record_is_empty', 'C07',
-    (MT, """        mosromgrmeta.append(copy.deepcopy(self.base_tag))""",
+    (MT, """        mosromgrmeta.append(copy.deepcopy(ro_delete))""",
      """        mosromgrmeta.append(Element('roDelete'))""", None))
 # ---- C08
 mut('m24_classify_deep_search', 'C08',
